@@ -1,0 +1,82 @@
+//go:build verif
+
+package transport
+
+// Contracts for the deductive verifier in /verif (govc); comments only.
+//
+// Framing (property C07). The ghost field net.Conn.in is the byte stream that Read has
+// delivered so far; the ghost field connInfo.delivered is the concatenation of all packets
+// handed to handleConn. The receive loop keeps  delivered ++ currBuffer == in  (no byte
+// lost, duplicated or reordered), hands over only complete frames (precondition of
+// handleConn) and never keeps a complete frame waiting for the next read.
+//
+//@ func (ServerProtocol).ParsePackage
+//@   formals self, buff
+//@   trusted
+//@   pure
+//@   ensures [C07] result1 == frameStatus(buff, protocol.maxPackageLength) && result0 == frameLen(buff, protocol.maxPackageLength)
+//
+//@ func (*tcpHandler).handleConn
+//@   trusted
+//@   requires [C07] frameStatus(pkg, protocol.maxPackageLength) == FrameFull && frameLen(pkg, protocol.maxPackageLength) == len(pkg)
+//@   modifies connSt.delivered, connSt.numInvoke
+//@   ensures [C07] connSt.delivered == old(connSt.delivered) ++ pkg
+//
+//@ func (*tcpHandler).recv$1
+//@   trusted
+//@   modifies connSt.idleTime, conn.closed
+//@   ensures [C07] conn.closed
+//
+//@ func isNoDataError
+//@   trusted
+//@   pure
+//
+//@ func (*tcpHandler).recv
+//@   requires t != nil && connSt != nil && t.server != nil && t.config != nil && t.server.config != nil && connSt.conn != nil && t.server.protocol != nil
+//@   requires connSt.delivered == connSt.conn.in
+//@   modifies connSt.delivered, connSt.conn.in, connSt.conn.closed, connSt.idleTime, connSt.numInvoke
+//@   ensures [C07] connSt.conn.closed
+//@   ensures [C07] len(connSt.delivered) <= len(connSt.conn.in) && connSt.delivered == connSt.conn.in[0:len(connSt.delivered)]
+//@   loop 0 invariant [C07] connSt.delivered ++ currBuffer == connSt.conn.in
+//@   loop 0 invariant [C07] frameStatus(currBuffer, protocol.maxPackageLength) == FrameLess
+//@   loop 0 invariant cap(currBuffer) == 0 || loopfresh(0, currBuffer)
+//@   loop 1 invariant cap(currBuffer) == 0 || loopfresh(0, currBuffer)
+//@   loop 1 invariant [C07] connSt.delivered ++ currBuffer == connSt.conn.in
+//@   loop 0 modifies connSt.idleTime, connSt.delivered, connSt.conn.in, connSt.numInvoke, bytes(buffer)
+//@   loop 1 modifies connSt.delivered, connSt.numInvoke
+//@   safety [C07]
+//
+// Client side: the same loop; a delivery is the statement `go protocol.Recv(pkg)`.
+//
+//@ func (ClientProtocol).ParsePackage
+//@   formals self, buff
+//@   trusted
+//@   pure
+//@   ensures [C07] result1 == frameStatus(buff, protocol.maxPackageLength) && result0 == frameLen(buff, protocol.maxPackageLength)
+//
+//@ func (*connection).close
+//@   requires c != nil
+//@   modifies c.isClosed, conn.closed
+//@   ensures [C07] conn != nil ==> conn.closed
+//@   safety [C07]
+//
+//@ func (*connection).recv$1
+//@   pure
+//@   safety [C07]
+//
+//@ func (*connection).recv
+//@   requires c != nil && c.client != nil && c.client.config != nil && c.client.protocol != nil && conn != nil
+//@   requires c.delivered == conn.in
+//@   modifies c.delivered, conn.in, conn.closed, c.invokeNum, c.isClosed
+//@   site Recv#0 assert [C07] frameStatus(pkg, protocol.maxPackageLength) == FrameFull && frameLen(pkg, protocol.maxPackageLength) == len(pkg)
+//@   site Recv#0 ghost c.delivered = c.delivered ++ pkg
+//@   ensures [C07] conn.closed
+//@   ensures [C07] len(c.delivered) <= len(conn.in) && c.delivered == conn.in[0:len(c.delivered)]
+//@   loop 0 invariant [C07] c.delivered ++ currBuffer == conn.in
+//@   loop 0 invariant [C07] frameStatus(currBuffer, protocol.maxPackageLength) == FrameLess
+//@   loop 0 invariant cap(currBuffer) == 0 || loopfresh(0, currBuffer)
+//@   loop 1 invariant [C07] c.delivered ++ currBuffer == conn.in
+//@   loop 1 invariant cap(currBuffer) == 0 || loopfresh(0, currBuffer)
+//@   loop 0 modifies c.delivered, conn.in, c.invokeNum, bytes(buffer)
+//@   loop 1 modifies c.delivered, c.invokeNum
+//@   safety [C07]
